@@ -16,7 +16,9 @@ SymTok   == [LP |-> "LPAREN", RP |-> "RPAREN", LS |-> "LSQUARE", RS |-> "RSQUARE
              COLON |-> "COLON", PLUS |-> "PLUS", EQ |-> "EQUAL", GT |-> "GREATER", TILDE |-> "TILDE",
              CARET |-> "CARROT", LT |-> "LESS"]                        \* lex.go:73 symbols
 Symbols  == DOMAIN SymTok
-Others   == {"HASH","SEMI","PCT","COMMA","NUL","BAD","NBSP","BANG","AMP","PIPE","AT"}   \* cannot start a token
+\* cannot start a token.  USYM = U+203A and LSEP = U+2028: non-letters whose code point modulo 256 is an ASCII
+\* symbol (":" and "("), so truncating a rune to a byte would turn them into operators
+Others   == {"HASH","SEMI","PCT","COMMA","NUL","BAD","NBSP","BANG","AMP","PIPE","AT","USYM","LSEP"}
 AllSyms  == Alnum \cup Wild \cup Spaces \cup Symbols \cup Others \cup {"BS","MINUS","DOT","DQ","SQ","SL"}
 
 Upper(c) == CASE c = "o" -> "O" [] c = "r" -> "R" [] OTHER -> c
